@@ -359,8 +359,8 @@ func (x *Exec) applyHavoc(st *State, pre *State, spec *FuncSpec, mods []modTarge
 				l := x.leaf(lf[0], 1, lf[1])
 				cur := x.heapGet(st, l)
 				f := x.em.freshConst("Hc.elems", l.InnerSort(0))
-				st.Heap[lf[0]] = x.em.define("H.elems", l.ArraySort(), "(store "+cur+" "+m.slice.Base+" "+f+")")
-				x.recordWrite(lf[0], m.slice.Base, false)
+				st.Heap[lf[0]] = x.em.define("H.elems", l.ArraySort(), "(store "+cur+" "+x.regionOf(m.slice).eb()+" "+f+")")
+				x.recordWrite(lf[0], x.regionOf(m.slice).eb(), false)
 			}
 		default:
 			t, key, idx, err := typeAtPath(m.ptr.Root, m.ptr.Path)
